@@ -377,6 +377,16 @@ def scenarios():
         nm = 't4/fsci%d' % fsci
         add(nm + '/ndef-read', 'tt4', wf, read_ndef, 'ndef')
         add(nm + '/ndef-write', 'tt4', wf, write_op(longmsg(90)), 'NDEF.octets=', prep=prep_ndef)
+    # chained COMMANDS: UPDATE BINARY longer than FSC-3 for FSC 16 .. 64 (2 .. 16 I-blocks per command); the card
+    # concatenates what it receives: the APDU it executes must be the APDU that was sent, exactly once
+    for fsci, mlc, fwi in ((0, 200, 8), (1, 100, 10), (2, 59, 8), (3, 80, 11), (4, 200, 8), (5, 130, 8)):
+        wf = t4_world(fwi, ndef=longmsg(40), fsci=fsci, cmiu=29, mle=60, mlc=mlc, mfs=512)
+        nm = 't4/cmdchain/fsc%d' % (16, 24, 32, 40, 48, 64)[fsci]
+        add(nm + '/ndef-write', 'tt4', wf, write_op(longmsg(230)), 'NDEF.octets=', prep=prep_ndef,
+            tier='quick' if fsci in (0, 2, 3, 5) else 'thorough')
+        add(nm + '/send_apdu', 'tt4', wf,
+            lambda w, mlc=mlc: w.tag.send_apdu(0, 0xD6, 0, 2, bytes((5 * i + 1) % 256 for i in range(mlc))), 'send_apdu',
+            prep=prep_ndef)
     return L
 
 
@@ -398,12 +408,14 @@ def run(scn, plan, history=0, plan2=None):
         w.clf.plan = None
     w0 = len(w.writes())
     e0 = len(w.apdus()) if hasattr(w, 'apdus') else 0
+    s0 = len(w.sent) if hasattr(w, 'sent') else 0
     w.clf.arm(plan, plan2)
     obs = observe(lambda: scn.op(w))
     w.clf.plan = w.clf.plan2 = None
     return dict(obs=obs, trace=list(w.clf.trace), delivered=list(w.clf.delivered), calls=list(w.clf.calls),
                 writes=w.writes()[w0:], memory=w.memory(), world=w, longest=w.clf.longest,
-                apdus=(w.apdus()[e0:] if hasattr(w, 'apdus') else None))
+                apdus=(w.apdus()[e0:] if hasattr(w, 'apdus') else None),
+                sent=(w.sent[s0:] if hasattr(w, 'sent') else None))
 
 
 def class_id(tag):
@@ -517,6 +529,14 @@ class Sweep(object):
                 viol('resent-after-answer', 'a command that was answered is sent again')
             if len(att) > max(n, 0):
                 viol('budget-exceeded', 'more attempts (%d) than the budget (%d)' % (len(att), n))
+        # (2b) Type 4: the card never executes anything but an APDU the tag layer sent (block chaining must reassemble
+        #      the command exactly), whatever the faults
+        if scn.ttype == 'tt4' and r['apdus'] is not None:
+            for a in r['apdus']:
+                if a not in r['sent']:
+                    case['executed_apdu'] = a.hex()
+                    viol('corrupted-apdu', 'the card executed an APDU that was never sent (%d bytes)' % len(a))
+                    break
         # (3) within the budget: exact result, same tag state, same answered commands
         if self.strict(scn, base, bud, plan):
             lost = [t[2] for t in r['trace'][pos:pos + burst] if t[1] == kind and t[2] is not None]
@@ -524,7 +544,9 @@ class Sweep(object):
                     and r['trace'][pos + burst][1] == 'A':
                 lost.append(r['trace'][pos + burst][2])      # the tag's answer to the re-sent command
             idem = all(x == base['trace'][pos][2] for x in lost)
-            if not idem:
+            if not idem and scn.ttype != 'tt4':
+                # (Type 4: ISO-DEP blocks are numbered, the protocol never re-sends an answered block; what the card
+                #  answers to a repeated block is no excuse)
                 ck.count('retry-answered-differently-by-tag')
                 return
             self.nstrict += 1
@@ -533,7 +555,10 @@ class Sweep(object):
             elif r['memory'] != base['memory']:
                 viol('tag-state-differs', 'burst within the budget: result as fault-free but the tag memory differs')
             elif scn.ttype == 'tt4':
-                if r['apdus'] != base['apdus']:
+                if r['apdus'] != r['sent']:
+                    viol('apdu-not-exactly-once', 'burst within the budget: the APDUs executed by the card are not the APDUs '
+                         'sent, each exactly once')
+                elif r['apdus'] != base['apdus']:
                     viol('apdu-sequence-differs', 'burst within the budget: the card executed another APDU sequence')
             else:
                 a1 = [c for (c, a) in r['delivered'] if a]
@@ -616,7 +641,7 @@ class Sweep(object):
                 for kind in ('TX' if scn.ttype == 'tt4' else 'TXP'):
                     if passive and kind == 'T':
                         continue
-                    for mode in ('req', 'rsp'):
+                    for mode in (('req', 'rsp') if (scn.ttype == 'tt4' or not quick) else ('req',)):
                         plan = (pos, kind, 1, mode)
                         r = run(scn, plan, history=h)
                         self.check(scn, bh, bud, plan, r, history=h)
@@ -772,6 +797,37 @@ def activation_cases(sw, quick):
                                      {'scenario': 'activate/' + name, 'plan': [pos, kind, burst, 'req'], 'observed': list(map(str, o))})
 
 
+def reader_side(ck):
+    """static tie: which CommunicationError classes can the READER side of a driver raise (ExnCheck on the C13 driver
+    skeletons of this run)?  Only those the tag layer handles are acceptable; reported per driver with the class."""
+    import re
+    import common
+    m13 = ck.model('c13')
+    if m13 is None:
+        return
+    try:
+        txt = open(os.path.join(common.COQ, 'Gen', 'ReaderSkel.v')).read()
+    except OSError:
+        ck.broken.append('Gen/ReaderSkel.v missing')
+        return
+    ents = re.findall(r'\("([^"]+)", "([^"]+)"\)', txt)
+    if len(ents) < 9:
+        ck.broken.append('Gen/ReaderSkel.v lists %d reader entries' % len(ents))
+    got = m13.run(['escapes %s %s' % e for e in ents])
+    ok = {'TimeoutError', 'TransmissionError', 'ProtocolError', 'IOError', 'NotImplementedError'}
+    for (d, k), g in zip(ents, got):
+        if g.startswith('?'):
+            ck.broken.append('reader side of %s: %s' % (d, g))
+            continue
+        for c in ([] if g == '-' else g.split(',')):
+            ck.case(('reader-side', d, c), True)
+            if c not in ok:
+                ck.violation('reader-side-raises:%s:%s' % (d, c),
+                             'the reader side of driver %s (%s) can raise %s, which no tag command handles: Type 1/2/3 end in '
+                             'RuntimeError("unexpected ..."), Type 4 lets it escape raw' % (d, k, c),
+                             {'scenario': 'reader-side/' + d, 'function': k, 'class': c, 'escapes': g})
+
+
 def main():
     ck = Check('C16')
     ck.trusted = ['Coq 8.16.1 kernel; vm_compute for the ExnCheck analysis on the regenerated tag skeletons; no native_compute',
@@ -796,7 +852,9 @@ def main():
         'ExnCheck covers explicit exception flow; implicit exceptions of Python operations are what the sweep looks for',
         'after an ISO-DEP exchange has failed (budget exhausted) the link state is the known finding of C12 (desync); '
         'duplicates of APDUs after such a failure are not judged here']
-    ck.coq(gen=['TagSkel'], targets=['Skel/ExnCheck.vo', 'Model/Retry.vo', 'Proofs/Retry.vo', 'Gen/TagSkel.vo', 'Bridge/C16Skel.vo'],
+    ck.coq(gen=['TagSkel', 'DriverSkel', 'ReaderSkel'],
+           targets=['Skel/ExnCheck.vo', 'Model/Retry.vo', 'Proofs/Retry.vo', 'Gen/TagSkel.vo', 'Bridge/C16Skel.vo',
+                    'Gen/DriverSkel.vo', 'Gen/ReaderSkel.vo', 'Bridge/C16Reader.vo'],
            props='C16')
     try:        # the extractor's own assumptions and omissions, as written into the generated file
         import common
@@ -806,6 +864,7 @@ def main():
         pass
     mr = ck.model()
     quick = ck.tier == 'quick'
+    reader_side(ck)
     sw = Sweep(ck, mr)
     scns = scenarios()
     by_name = {s.name: s for s in scns}
@@ -848,7 +907,7 @@ def main():
             sw.sweep(scn, True if quick else False, kinds='O' if quick else 'OB', bursts=(1, 3), modes=('req',), base=base)
         if base['trace'] and base['obs'][0] == 'val':
             sw.history_sweep(scn, base, quick, depths=(1,) if quick else (1, 2, 3))
-            sw.two_bursts(scn, base, quick, step=1 if (scn.ttype == 'tt4' or not quick) else 3)
+            sw.two_bursts(scn, base, quick, step=1 if (scn.ttype == 'tt4' or not quick) else 4)
         longest = max(longest, base.get('longest', 0.0))
     activation_cases(sw, quick)
 
